@@ -3,6 +3,15 @@
      signed : k <graph> <scan list> <roots list> <eord list>            approx_mcb_sva_signed, oracles of the spanner
      given  : k <graph> <scan list> <sw> N <cycle 1 (spanner ids)> ..   tree-based entry points, exact phase's answer supplied
      dijk   : s <graph>                                                  plain dijkstra: DIST .. PRED ..
+     fvstrees : k <graph> <scan list> <roots list> <picks list> N <cycle 1 (spanner ids, sorted)> ..
+                                                                         tree-based entry points, exact phase = ACCEPTED run of
+                                                                         mcb_sva_fvs_trees on the spanner (MODEL-ERROR exact = rejected)
+     signedtbb : k <graph> <scan> <roots> <eord> nbits <bits|-> <perm1> <permc> <permw>
+                                                                         approx_mcb_sva_signed_tbb under the schedule stream
+     giventbb  : k <graph> <scan> <sw> N <cycles> <pos1> nbits <bits|-> <permc> <permw>
+                                                                         tree-based TBB entry points, exact phase's answer and the
+                                                                         stream position after it supplied
+   TBB components print additionally  POS <schedule bits consumed>
    Output: SPR <retained> SPD <dropped> then  THROW runtime_error EMITTED 0  |  RET w N n CYC len ids ...  | MODEL-ERROR <kind> *)
 open Model
 open Common
@@ -42,6 +51,60 @@ let given t b =
   pr_spanner b g k scan;
   pr_result b (approx_sva_given cs sw g ws k scan)
 
+let next_bits t =
+  let nb = next_int t in
+  let s = next t in
+  let l = if s = "-" then [] else List.init (String.length s) (fun i -> s.[i] = '1') in
+  if List.length l <> nb then failwith "bit count mismatch";
+  l
+
+let pr_tbb b ((r, pos) : tbb_result * nat) =
+  (match r with
+   | TbbRun r -> pr_result b r
+   | TbbFail TbbAt -> pr_str b "MODEL-ERROR at"
+   | TbbFail TbbRange -> pr_str b "MODEL-ERROR range"
+   | TbbFail (TbbSeq _) -> pr_str b "MODEL-ERROR seq");
+  pr_str b " POS "; pr_nat b pos
+
+let fvstrees t b =
+  let k = next_nat t in
+  let (n, es, ws) = next_graph_raw t in
+  let scan = next_list t next_nat in
+  let roots = next_list t next_nat in
+  let picks = next_list t next_nat in
+  let cs = next_list t (fun t -> next_list t next_nat) in
+  let g = { nv = nat_of_int n; ge = es } in
+  pr_spanner b g k scan;
+  pr_result b (approx_sva_fvs_trees_Z g ws k scan roots picks cs)
+
+let signedtbb t b =
+  let k = next_nat t in
+  let (n, es, ws) = next_graph_raw t in
+  let scan = next_list t next_nat in
+  let roots = next_list t next_nat in
+  let eord = next_list t next_nat in
+  let bits = next_bits t in
+  let perm1 = next_list t next_nat in
+  let permc = next_list t next_nat in
+  let permw = next_list t next_nat in
+  let g = { nv = nat_of_int n; ge = es } in
+  pr_spanner b g k scan;
+  pr_tbb b (approx_sva_signed_tbb_Z g ws k scan roots eord bits perm1 permc permw)
+
+let giventbb t b =
+  let k = next_nat t in
+  let (n, es, ws) = next_graph_raw t in
+  let scan = next_list t next_nat in
+  let sw = next_z t in
+  let cs = next_list t (fun t -> next_list t next_nat) in
+  let pos1 = next_nat t in
+  let bits = next_bits t in
+  let permc = next_list t next_nat in
+  let permw = next_list t next_nat in
+  let g = { nv = nat_of_int n; ge = es } in
+  pr_spanner b g k scan;
+  pr_tbb b (approx_sva_given_tbb cs sw pos1 g ws k scan bits permc permw)
+
 let dijk t b =
   let s = next_nat t in
   let (n, es, ws) = next_graph_raw t in
@@ -52,4 +115,5 @@ let dijk t b =
   | DjFuel -> pr_str b "MODEL-ERROR fuel"
   | DjBroken -> pr_str b "MODEL-ERROR broken"
 
-let () = main [ ("signed", signed); ("given", given); ("dijk", dijk) ]
+let () = main [ ("signed", signed); ("given", given); ("dijk", dijk); ("fvstrees", fvstrees);
+                ("signedtbb", signedtbb); ("giventbb", giventbb) ]
